@@ -83,6 +83,10 @@ Lemma svd_ctor_rejects_none : g_svd_ctor PNone = Err ValueError /\ g_rp_ctor PNo
 Proof. split; reflexivity. Qed.
 Lemma identity_fit_rejects k rows : rows < k -> g_identity_fit k rows = Err ValueError.
 Proof. intro. unfold g_identity_fit. zb. Qed.
+Lemma svd_fit_rejects k rows width : rows < k \/ width < k -> g_svd_fit k rows width = Err ValueError.
+Proof.
+  intro H. unfold g_svd_fit. destruct (Z.ltb_spec rows k); [reflexivity|]. destruct (Z.ltb_spec width k); [reflexivity|]. lia.
+Qed.
 Lemma basis_modes_rejects avail v : bad_count v \/ too_large v avail -> g_basis_modes true avail v = Err ValueError.
 Proof.
   unfold too_large; intros [H|[z [E L]]]; [destruct v; crunch|].
